@@ -627,7 +627,7 @@ theorem hasN_split2 (x a s k : Nat) (hk : k + 8 ≤ s) :
 theorem realloc_inv (cfg : Cfg) (ok : CfgOK cfg) (h : Heap) (ptr : Option Nat) (n : Nat) (r : Res)
     (hi : HInv cfg h) (hr : realloc cfg h ptr n = some r) : HInv cfg r.h := by
   obtain ⟨hn, hn8, hnm⟩ := reqLen_props cfg ok n
-  unfold realloc at hr
+  unfold realloc reallocCore at hr
   generalize minLen (roundLen cfg.W n) = len at *
   simp only at hr
   split at hr
@@ -1010,5 +1010,200 @@ theorem free_evs_where (cfg : Cfg) (h : Heap) (p : Nat) (r : Res) (hi : HInv cfg
       rcases he with rfl | he
       · exact ⟨(p - 8, sz), by simp, he0⟩
       · exact ⟨(p - 8, sz), by simp, insUpEvs_inside (p - 8, sz) _ hN8 e he⟩
+
+
+theorem mem_remove_of_ne {a : Nat} {c : Chunk} {l : List Chunk} (hc : c ∈ l) (hne : c.1 ≠ a) : c ∈ remove a l := by
+  induction l with
+  | nil => cases hc
+  | cons d l ih =>
+    simp only [remove]
+    rcases List.mem_cons.1 hc with rfl | hc
+    · simp [hne]
+    · split
+      · exact hc
+      · exact List.mem_cons_of_mem _ (ih hc)
+
+theorem mem_setChunk_of_ne {a : Nat} {c new : Chunk} {l : List Chunk} (hc : c ∈ l) (hne : c.1 ≠ a) :
+    c ∈ setChunk a new l := by
+  induction l with
+  | nil => cases hc
+  | cons d l ih =>
+    simp only [setChunk]
+    rcases List.mem_cons.1 hc with rfl | hc
+    · simp [hne]
+    · split
+      · exact List.mem_cons_of_mem _ hc
+      · exact List.mem_cons_of_mem _ (ih hc)
+
+/-- two live chunks with different addresses do not overlap -/
+theorem HInv.disj_live_live {cfg h} (hi : HInv cfg h) {c : Chunk} {a sz : Nat} (hc : c ∈ h.live)
+    (hl : lookup a h.live = some sz) (hne : c.1 ≠ a) : Disj c (a, sz) := by
+  apply disj_of_hasN
+  intro x
+  have := hi.tile x
+  have := cnt_remove (x := x) hl
+  have := hasN_le_cnt (x := x) (mem_remove_of_ne hc hne)
+  split at * <;> omega
+
+theorem malloc_ret_none {cfg h n} (hr : (malloc cfg h n).ret = none) :
+    (malloc cfg h n).h = h ∧ (malloc cfg h n).evs = [] := by
+  generalize hm : malloc cfg h n = r at hr ⊢
+  unfold malloc at hm
+  simp only at hm
+  split at hm
+  · subst hm; cases hr
+  · split at hm
+    · split at hm <;> (subst hm; cases hr)
+    · split at hm
+      · subst hm; simp
+      · subst hm; cases hr
+
+theorem malloc_ret_some {cfg h n q} (hr : (malloc cfg h n).ret = some q) :
+    ∃ s, (malloc cfg h n).h.live = (q - 8, s) :: h.live ∧ 8 ≤ q ∧ minLen (roundLen cfg.W n) ≤ s := by
+  generalize hm : malloc cfg h n = r at hr ⊢
+  unfold malloc at hm
+  simp only at hm
+  split at hm
+  · subst hm; simp only [Option.some.injEq] at hr; subst hr; exact ⟨_, by simp, by omega, Nat.le_refl _⟩
+  · rename_i s sfp1 hsc
+    have hb := scan_inr (L := h.flp) hsc (fun c hc => hc) (Or.inl rfl)
+    split at hm
+    · rename_i hs0
+      have ⟨hmm, hlt⟩ := hb.resolve_left hs0
+      split at hm
+      · subst hm; simp only [Option.some.injEq] at hr; subst hr; exact ⟨s, by simp, by omega, by omega⟩
+      · subst hm; simp only [Option.some.injEq] at hr; subst hr; exact ⟨_, by simp, by omega, Nat.le_refl _⟩
+    · split at hm
+      · subst hm; cases hr
+      · subst hm; simp only [Option.some.injEq] at hr; subst hr; exact ⟨_, by simp, by omega, Nat.le_refl _⟩
+
+theorem malloc_evs_avoid (cfg : Cfg) (h : Heap) (n : Nat) (hi : HInv cfg h) :
+    ∀ e ∈ (malloc cfg h n).evs, ∀ c ∈ h.live, e.Avoids c.1 (c.1 + 8 + c.2) := by
+  intro e he c hc
+  rcases malloc_evs_where cfg h n hi e he with ⟨f, hf, hin⟩ | hb
+  · exact hin.avoids (by have := hi.disj_free_live hf hc; omega)
+  · have := hi.fin_le_brk (Or.inr hc); unfold Ev.Avoids; omega
+
+theorem free_evs_avoid (cfg : Cfg) (h : Heap) (p : Nat) (r : Res) (hi : HInv cfg h)
+    (hr : free h p = some r) :
+    ∀ e ∈ r.evs, ∀ c ∈ h.live, c.1 ≠ p - 8 → e.Avoids c.1 (c.1 + 8 + c.2) := by
+  obtain ⟨sz, hl, hw⟩ := free_evs_where cfg h p r hi hr
+  intro e he c hc hne
+  obtain ⟨f, hf, hin⟩ := hw e he
+  rcases List.mem_cons.1 hf with rfl | hf
+  · have := hi.disj_live_live hc hl hne
+    unfold Disj at this; simp only at this hin
+    exact hin.avoids (by omega)
+  · exact hin.avoids (by have := hi.disj_free_live hf hc; omega)
+
+
+/-- where realloc stores, by outcome -/
+theorem realloc_where (cfg : Cfg) (ok : CfgOK cfg) (h : Heap) (p n sz : Nat) (r : Res) (hi : HInv cfg h)
+    (hl : lookup (p - 8) h.live = some sz)
+    (hr : realloc cfg h (some p) n = some r) :
+    let len := minLen (roundLen cfg.W n)
+    (r.ret = some p ∧ ∀ e ∈ r.evs, e.Inside (p - 8) p ∨ e.Inside (p + min sz len) (p + sz) ∨
+        ∃ f ∈ h.flp, e.Inside f.1 (f.1 + 8 + f.2)) ∨
+    (r.ret = none ∧ r.h = h ∧ r.evs = []) ∨
+    (∃ q r2, (malloc cfg h len).ret = some q ∧ free (malloc cfg h len).h p = some r2 ∧ r.h = r2.h ∧
+        r.ret = some q ∧ r.evs = (malloc cfg h len).evs ++ .cp q p sz :: r2.evs ∧ sz < len) := by
+  obtain ⟨hn, hn8, hnm⟩ := reqLen_props cfg ok n
+  intro len
+  unfold realloc reallocCore at hr
+  simp only at hr
+  have hlen : minLen (roundLen cfg.W n) = len := rfl
+  rw [hlen] at hr hn hn8 hnm
+  clear_value len
+  split at hr
+  · cases hr
+  rename_i hp8
+  rw [hl] at hr
+  simp only at hr
+  have hN := lookup_mem hl
+  obtain ⟨hN8, hNm, hNa⟩ := hi.wfL _ hN
+  simp only at hN8 hNm hNa
+  split at hr
+  · rename_i hle
+    have hmin : min sz len = len := by omega
+    split at hr
+    · cases hr; left; exact ⟨rfl, by simp⟩
+    · rename_i hsplit
+      split at hr
+      · cases hr
+      · rename_i r1 hf
+        cases hr
+        left
+        refine ⟨rfl, fun e he => ?_⟩
+        simp only [List.mem_cons] at he
+        rcases he with rfl | rfl | he
+        · right; left; simp only [Ev.Inside, Ev.lo, Ev.hi]; omega
+        · left; simp only [Ev.Inside, Ev.lo, Ev.hi]; omega
+        · -- the stores of free(tail): inside the tail or inside a free chunk
+          have h1 : HInv cfg { h with live := (p + len, sz - len - 8) :: setChunk (p - 8) (p - 8, len) h.live } := by
+            refine ⟨fun x => ?_, hi.sorted, hi.notTop, hi.wfF, fun c hc => ?_, hi.brk8, hi.lim⟩
+            · have := hi.tile x
+              have := cnt_setChunk (x := x) (new := (p - 8, len)) hl
+              have := hasN_split2 x (p - 8) sz len (by omega)
+              have hpe : p - 8 + 8 + len = p + len := by omega
+              rw [hpe] at this
+              simp only [cnt_cons]; omega
+            · rcases List.mem_cons.1 hc with rfl | hc
+              · simp only; omega
+              · rcases mem_setChunk hc with hc | rfl
+                · exact hi.wfL c hc
+                · exact ⟨hn8, hnm, hNa⟩
+          obtain ⟨sz', hl', hw⟩ := free_evs_where cfg _ _ r1 h1 hf
+          have hpe : p + len + 8 - 8 = p + len := by omega
+          simp only [lookup, hpe, ↓reduceIte, Option.some.injEq] at hl'
+          subst hl'
+          obtain ⟨f, hf', hin⟩ := hw e he
+          rw [hpe] at hf'
+          rcases List.mem_cons.1 hf' with rfl | hf'
+          · right; left; simp only [Ev.Inside] at hin ⊢; omega
+          · right; right; exact ⟨f, hf', hin⟩
+  · rename_i hgt
+    have hmin : min sz len = sz := by omega
+    split at hr
+    · rename_i fp3 hg
+      obtain ⟨hm3, ha3, hs3⟩ := growScan_inl hg
+      have hw3 := hi.wfF _ hm3
+      have hw8 : ∀ c ∈ h.flp, 8 ≤ c.2 := fun c hc => (hi.wfF c hc).1
+      split at hr
+      · rename_i hbig
+        cases hr
+        left
+        refine ⟨rfl, fun e he => ?_⟩
+        simp only [List.mem_cons] at he
+        rcases he with rfl | rfl | rfl | he
+        · right; right; exact ⟨fp3, hm3, by simp only [Ev.Inside, Ev.lo, Ev.hi]; omega⟩
+        · right; right; exact ⟨fp3, hm3, by simp only [Ev.Inside, Ev.lo, Ev.hi]; omega⟩
+        · left; simp only [Ev.Inside, Ev.lo, Ev.hi]; omega
+        · right; right; exact nxWrite_inside hw8 e he
+      · cases hr
+        left
+        refine ⟨rfl, fun e he => ?_⟩
+        simp only [List.mem_cons] at he
+        rcases he with rfl | he
+        · left; simp only [Ev.Inside, Ev.lo, Ev.hi]; omega
+        · right; right; exact nxWrite_inside hw8 e he
+    · split at hr
+      · split at hr
+        · cases hr; right; left; exact ⟨rfl, rfl, rfl⟩
+        · cases hr; left
+          refine ⟨rfl, fun e he => ?_⟩
+          simp only [List.mem_singleton] at he; subst he
+          left; simp only [Ev.Inside, Ev.lo, Ev.hi]; omega
+      · split at hr
+        · rename_i hnone
+          cases hr
+          have := malloc_ret_none hnone
+          right; left; exact ⟨rfl, this.1, this.2⟩
+        · rename_i q hq
+          split at hr
+          · cases hr
+          · rename_i r2 hf2
+            cases hr
+            right; right
+            exact ⟨q, r2, hq, hf2, rfl, rfl, rfl, by omega⟩
 
 end Igris.C10
